@@ -192,3 +192,15 @@ PROPS["C14"] = {
     "assumptions": ["a panic escaping Init/Invoke on the calling goroutine is counted as process death (the shim has no recover)"],
     "timeout": 3000,
 }
+
+PROPS["C17"] = {
+    "modules": ["Foundation.Proofs.C17"],
+    "facts": True,
+    "level_text": "Machine-checked for any number of invocations, any programs and every schedule: the context table is keyed by the goroutine, so the table cell and the state of an invocation after any interleaving are exactly what it reaches running alone (isolation), hence every GetStub() returns the stub that invocation itself installed (own_context, expected_own); a single shared slot is proved to leak (shared_slot_counterexample). Per-run obligations re-extracted from the source: setEnv/getEnv/delEnv are keyed by goid(), GetStub reads the table, the context is installed with a deferred removal at exactly the known sites. Tie: 2-3 invocations (immediate method, batchExecute, executeTasks, swap completion) run on ONE instance on separate goroutines with separate simulated transactions; a scheduler forces every interleaving of the switch points immediately before each GetStub(); reply, write-set and event of each are compared with its solo run and with the model's prediction.",
+    "level_note": "Trusted: Lean kernel + 3 axioms; goroutine ids are unique among live goroutines; sync.Map is linearizable; the scheduler's switch points are the scripted bodies' GetStub() calls (library-internal GetStub() calls are not switch points). Partial by nature: Go-memory-model data races on fields every invocation rewrites (BaseContract.config, BaseToken.tokenConfig, BaseToken.config) are outside an interleaving model.",
+    "trusted_base": ["context table modelled by Foundation.Env (cell per thread id)", "facts: envKeyedByGoid, envInstallSites, getStubReadsEnv re-extracted each run"],
+    "hypotheses": ["each invocation runs on its own goroutine (Fabric shim)"],
+    "not_modelled": ["data races on shared configuration fields under true parallelism", "switch points inside library code"],
+    "assumptions": [],
+    "timeout": 3000,
+}
